@@ -1163,6 +1163,30 @@ def _g4(ctx: Context) -> None:
                 f"ensure_connection awaits self.{k} without asyncio.shield: a caller's timeout or cancellation aborts the background attempt",
                 ctx.loc(ef, n),
             )
+    # a shield stored in an attribute is shared between callers: cancelling one waiter (its timeout) cancels the shared
+    # outer future and wakes every other waiter with CancelledError instead of letting them wait their own bounded time
+    shared = []
+    for n in ecfg.nodes:
+        for aw in _awaits(n):
+            v = aw.value
+            if isinstance(v, ast.Attribute) and isinstance(v.value, ast.Name) and v.value.id == "self" and v.attr != k:
+                for g in _top_functions(ctx):
+                    for x in ast.walk(g.node):
+                        if isinstance(x, ast.Assign) and any(isinstance(tg, ast.Attribute) and tg.attr == v.attr for tg in x.targets):
+                            if isinstance(x.value, ast.Call) and _resolved(ctx, g, x.value.func) == "asyncio.shield" and any(
+                                    isinstance(sx, ast.Attribute) and sx.attr == k for sx in ast.walk(x.value)):
+                                shared.append((n, v.attr))
+    for n, attr_ in {(a.id, b): (a, b) for a, b in shared}.values():
+        n_aw += 1
+        ck.violated(
+            "C10.G4",
+            f"{ctx.fkey(ef)}:shared-shield:{attr_}",
+            f"ensure_connection awaits self.{attr_}, a single asyncio.shield(self.{k}) object shared by all callers: when one caller's timeout "
+            "cancels its await the shared future is cancelled and every other waiting caller gets CancelledError instead of its own bounded wait",
+            ctx.loc(ef, n),
+            None,
+            "every caller awaits its own asyncio.shield(connector)",
+        )
     if n_aw == 0:
         ck.unknown("C10.G4", f"ensure_connection no longer awaits self.{k}", ef.loc())
     # sweep: every other await of the connector in the IP package
